@@ -1,0 +1,12 @@
+//go:build verif
+
+package types
+
+// Contracts for x/mint/types, read by /verif/bin/govc. Comment-only: compiled
+// only with -tags verif and adds no code.
+
+//@ func (m Minter).CalculateBlockProvision(current, previous) (c, err)
+//@ requires [elapsed_below_overflow] current - previous <= 62769647725999999
+//@ ensures [error_iff_time_goes_back] (err != nil) <==> (current < previous)
+//@ ensures [amount_is_rate_times_elapsed_ms] err == nil ==> c.Amount == 146940000 * ((current - previous) / 1000000) / 86400000
+//@ ensures [denom] err == nil ==> c.Denom == "loya"
